@@ -194,10 +194,16 @@ def gen(seed, V, tier, index, bias=None):
             else:
                 ev = ["change_atom", tt, V.atom(rng), rng.choice(live_tables + ["public"])]
         elif fam["t_reader"] and r < 0.8:
-            if rng.random() < 0.6:
+            rr = rng.random()
+            if rr < 0.5:
                 ev = E.gen_read(rng, V, tbl=t)
                 if ev[2][1] and "mass" not in pred.tprops.get(t, ()):
                     ev[2][1] = 0     # no isotopes before mass.init(T)
+            elif rr < 0.65:
+                at = V.atom(rng)
+                if at[1] and "mass" not in pred.tprops.get(t, ()):
+                    at[1] = 0
+                ev = ["probe", t, at, rng.choice(E.PROBES)]
             else:
                 ev = E.gen_calc(rng, V, tbl=t, which=rng.choice(["nscat", "xsld", "volume", "mass", "activation", "list", "emission_table"]))
         elif fam["pickler"] and r < 0.95:
